@@ -47,6 +47,7 @@ type WorkerReport struct {
 	Samples     []json.RawMessage `json:"samples"`
 	Violations  []ViolationRep    `json:"violations"`
 	Known       map[string]string `json:"known"`
+	Sites       map[string]int    `json:"sites"` // rule source positions that fired (every finding, duplicates included)
 	HarnessErr  []string          `json:"harness_errors"`
 }
 
@@ -173,7 +174,7 @@ func workerExplore(t *testing.T, pd *PropDef) {
 	known := loadKnown(os.Getenv("WSIM_KNOWN"))
 	cur, _ := os.OpenFile(filepath.Join(out, fmt.Sprintf("current.%d", worker)), os.O_CREATE|os.O_WRONLY|os.O_TRUNC, 0o644)
 	rep := &WorkerReport{Prop: pd.ID, Worker: worker, Race: RaceBuild, Faults: map[string]uint64{}, Probes: map[string]uint64{},
-		Classes: map[string]int{}, Reasons: map[string]int{}, Discarded: map[string]int{}, Known: map[string]string{}}
+		Classes: map[string]int{}, Reasons: map[string]int{}, Discarded: map[string]int{}, Known: map[string]string{}, Sites: map[string]int{}}
 	digests := map[uint64]struct{}{}
 	start := time.Now()
 	deadline := start.Add(time.Duration(secs) * time.Second)
@@ -234,6 +235,7 @@ func workerExplore(t *testing.T, pd *PropDef) {
 				rep.Discarded["other-property:"+f.Prop+"/"+f.Rule]++
 				continue
 			}
+			rep.Sites[f.Rule+"@"+f.Site]++
 			if seenSig[f.Sig] {
 				continue
 			}
@@ -250,8 +252,8 @@ func workerExplore(t *testing.T, pd *PropDef) {
 			rep.Violations = append(rep.Violations, ViolationRep{Prop: pd.ID, Sig: rp.Signature, Detail: rp.Detail, Replay: path})
 			stop = true
 		}
-		if stop && len(rep.Violations) >= 3 {
-			break
+		if stop && len(rep.Violations) >= 3 && os.Getenv("WSIM_NOSTOP") == "" {
+			break // (WSIM_NOSTOP: keep exploring for the whole budget, used by the rule census of tools/)
 		}
 	}
 	rep.WallS = time.Since(start).Seconds()
